@@ -35,7 +35,8 @@ ASSUMPTIONS = [
 BOUNDS = {'quick': {'permuted_lines': 6, 'comments_per_block': 1}, 'thorough': {'permuted_lines': 7, 'comments_per_block': 2}}
 
 HOSTILE = ['plain', 'a = b', '## x', '42', 'Exogenous spending', 'not exogenous', 'MaxTime = 9', 'x(0) = 3', 'y(k-1)',
-           'EXOGENOUS', 'x = 1 # y = 2', '(0)', 'Err_Tolerance = 5', '= ='] 
+           'EXOGENOUS', 'x = 1 # y = 2', '(0)', 'Err_Tolerance = 5', '= =',
+           'pasted\x0by(0) = 100', 'page\x0cMaxTime = 9', 'cr\rx = 7'] 
 PURE_COMMENTS = ['# just a remark', '# c = 0.6*yd', '# h(0) = 99.', '# MaxTime = 50', '#', '   # indented z = 3']
 
 # (kind, lhs, rhs)
@@ -61,6 +62,9 @@ LINES = {
     'BAD1': ('bad', 'oops', ''),
     'BAD2': ('bad', 'w = 3 = y', ''),
     'BAD3': ('bad', 'q', ''),
+    'BAD4': ('bad', 'w == 5', ''),
+    'BAD5': ('bad', 'v = 5 =', ''),
+    'BAD6': ('bad', '= w = 5', ''),
 }
 LAGSP = ['(k-1)', '(t-1)', ' (k -1 )']
 SPACINGS = ['none', 'single', 'tabs']
@@ -255,6 +259,7 @@ def endogenous_sets(tier):
     sets.append(['S1', 'S2', 'C1', 'BAD1', 'C2', 'MT'][:n])
     sets.append(['S1', 'S2', 'BAD2', 'C3', 'C5', 'BLANK'][:n] + ['MT'])
     sets.append(['S1', 'S2', 'BAD3', 'IC', 'ET', 'LAG'][:n])       # no MaxTime line: the horizon stays at its default 0
+    sets.append(['S1', 'S2', 'BAD4', 'BAD5', 'BAD6', 'MT'][:n] + (['MT'] if n < 6 else []))
     if n >= 7:
         sets.append(['S1', 'S2', 'LAG', 'USE', 'IC', 'C1', 'MT'])
     return sets
